@@ -34,8 +34,42 @@ for _k, _v in KEY_IDS.items():
 FUEL = 60
 
 
+RULE_NAMES = ["Q", "R"]          # constrained scalar types: `class Q(int, Rule): gt = 0`
+CON_KINDS = ["le", "ge", "gt", "lt", "max_length", "min_length"]
+
+
 def name_id(n: str) -> int:
-    return CLASS_NAMES.index(n) if n in CLASS_NAMES else 100 + FUNC_NAMES.index(n)
+    if n in CLASS_NAMES:
+        return CLASS_NAMES.index(n)
+    if n in RULE_NAMES:
+        return 200 + RULE_NAMES.index(n)
+    return 100 + FUNC_NAMES.index(n)
+
+
+def con_id(c) -> int:
+    """a constraint [kind, bound] as the number the Lean driver decodes"""
+    return CON_KINDS.index(c[0]) * 1000 + c[1]
+
+
+def con_ok(c, v) -> bool:
+    kind, b = c
+    if kind in ("max_length", "min_length"):
+        n = len(v["%"]) if isinstance(v, dict) else len(v) - 1      # canonical list/tuple carry a tag
+        return n <= b if kind == "max_length" else n >= b
+    return {"le": v <= b, "ge": v >= b, "gt": v > b, "lt": v < b}[kind]
+
+
+def field_con(case, owner, fname):
+    """the Field(...)/Param(...) constraint declared with a field (looked up through the bases)"""
+    cons = case.get("cons") or {}
+    if fname in cons.get(owner, {}):
+        return cons[owner][fname]
+    if owner in case["classes"]:
+        for b in bases_of(case["classes"][owner]):
+            c = field_con(case, b, fname)
+            if c:
+                return c
+    return None
 
 
 def ann_src(t, quoted_ok=True) -> str:
@@ -87,7 +121,9 @@ def class_src(case, name, ind) -> list:
     if not c["fields"]:
         lines.append(f"{ind}    pass")
     for fname, t in c["fields"]:
-        lines.append(f"{ind}    {fname}: {field_src(case, t)} = Field(required=False)")
+        con = (case.get("cons") or {}).get(name, {}).get(fname)
+        kw = f", {con[0]}={con[1]}" if con else ""
+        lines.append(f"{ind}    {fname}: {field_src(case, t)} = Field(required=False{kw})")
     return lines
 
 
@@ -96,7 +132,7 @@ def program_src(case) -> str:
     head = []
     if case.get("future"):
         head.append("from __future__ import annotations")
-    head += ["import utype", "from utype import Schema, Field",
+    head += ["import utype", "from utype import Schema, Field, Rule",
              "from typing import List, Dict, Optional, Tuple, Union"]
     for g in case.get("funcs", {}):
         head.append(f"_seen_{g} = []")
@@ -119,9 +155,15 @@ def program_src(case) -> str:
             f = case["funcs"][op["fn"]]
             ret = f" -> {field_src(case, f['ret'])}" if f.get("ret") else ""
             lines.append(f"{ind}@utype.parse")
-            lines.append(f"{ind}def {op['fn']}(a: {field_src(case, f['arg'])} = None, r=None){ret}:")
+            con = (case.get("cons") or {}).get(op["fn"], {}).get("a")
+            dflt = f"utype.Param(None, {con[0]}={con[1]})" if con else "None"
+            lines.append(f"{ind}def {op['fn']}(a: {field_src(case, f['arg'])} = {dflt}, r=None){ret}:")
             lines.append(f"{ind}    _seen_{op['fn']}.append(a)")
             lines.append(f"{ind}    return r")
+        elif "rule" in op:
+            kind, b = case["rules"][op["rule"]]
+            lines.append(f"{ind}class {op['rule']}(int, Rule):")
+            lines.append(f"{ind}    {kind} = {b}")
         elif "use" in op:
             lines.append(f"{ind}_canon(_out, lambda: {op['use']}(**{op['input']!r}))")
         elif "call" in op:
@@ -283,7 +325,14 @@ def ref_parse(case, defined, t, v, depth=0):
             return None
         raise Bad()
     if k == "ref":
-        if not isinstance(v, dict) or t["n"] not in defined:
+        if t["n"] not in defined:
+            raise Bad()
+        if t["n"] in (case.get("rules") or {}):
+            r = leaf_int(v)
+            if not con_ok(case["rules"][t["n"]], r):
+                raise Bad()
+            return r
+        if not isinstance(v, dict):
             raise Bad()
         return ref_cls(case, defined, t["n"], v, depth + 1)
     if k == "list":
@@ -311,11 +360,20 @@ def ref_parse(case, defined, t, v, depth=0):
     raise ValueError(k)
 
 
+def ref_field(case, defined, owner, fname, t, v, depth=0):
+    """a field with its declared constraint: the value is converted, then (unless None) checked"""
+    r = ref_parse(case, defined, t, v, depth)
+    con = field_con(case, owner, fname)
+    if con and r is not None and not con_ok(con, r):
+        raise Bad()
+    return r
+
+
 def ref_cls(case, defined, name, data, depth=0):
     f = {}
     for fname, t in all_fields(case, name):
         if fname in data:
-            f[fname] = ref_parse(case, defined, t, data[fname], depth + 1)
+            f[fname] = ref_field(case, defined, name, fname, t, data[fname], depth + 1)
     return {"$": name, "f": f}
 
 
@@ -324,7 +382,7 @@ def ref_use(case, defined, op):
         if "use" in op:
             return {"ok": ref_cls(case, defined, op["use"], op["input"])}
         g = case["funcs"][op["call"]]
-        f = {"a": ref_parse(case, defined, strip(g["arg"]), op["input"]["a"])}
+        f = {"a": ref_field(case, defined, op["call"], "a", strip(g["arg"]), op["input"]["a"])}
         if g.get("ret"):
             f["<return>"] = ref_parse(case, defined, strip(g["ret"]), op["input"]["<return>"])
         return {"ok": {"$": op["call"], "f": f}}
@@ -346,6 +404,8 @@ def refs_of(t, out=None):
 
 
 def anns_of(case, name):
+    if name in (case.get("rules") or {}):
+        return []
     if name in case["classes"]:
         return [t for _, t in case["classes"][name]["fields"]]
     g = case["funcs"][name]
@@ -390,6 +450,8 @@ def walk(case):
             defined.append(op["def"])
         elif "fn" in op:
             defined.append(op["fn"])
+        elif "rule" in op:
+            defined.append(op["rule"])
 
 
 def uses(case):
@@ -429,7 +491,7 @@ def _typing_cells(case):
     for f in getattr(typing, "_cleanups", []):
         f()
     ns = {n: getattr(typing, n) for n in ("List", "Dict", "Optional", "Tuple", "Union")}
-    for n in CLASS_NAMES:
+    for n in CLASS_NAMES + RULE_NAMES:
         ns[n] = type(n, (), {})
     keep, ids, cells = [], {}, {}
     fresh = [500]
@@ -535,7 +597,11 @@ def model_line(case, cfg=None):
     ops = []
     top = [10000]
     for i, op, _ in walk(case):
-        if "def" in op or "fn" in op:
+        if "rule" in op:
+            ops.append({"def": name_id(op["rule"]), "fields": [], "local": case.get("scope") == "function",
+                        "bound": case.get("scope") != "function", "func": False, "bases": [],
+                        "rule": con_id(case["rules"][op["rule"]])})
+        elif "def" in op or "fn" in op:
             if "def" in op:
                 name = op["def"]
                 c = case["classes"][name]
@@ -550,11 +616,13 @@ def model_line(case, cfg=None):
                 func = True
             fields = []
             for f, t in anns:
+                con = (case.get("cons") or {}).get(name, {}).get(f)
+                wrap = (lambda a: {"con": [con_id(con), a]}) if con else (lambda a: a)
                 if is_top_string(case, t):
                     top[0] += 1
-                    fa = {"str": top[0], "e": model_ann(strip(t), {}, ())}
+                    fa = {"str": top[0], "e": wrap(model_ann(strip(t), {}, ()))}
                 else:
-                    fa = {"plain": model_ann(t, cells, (i, f))}
+                    fa = {"plain": wrap(model_ann(t, cells, (i, f)))}
                 fields.append([KEY_IDS[f], fa])
             bases = bases_of(case["classes"][name]) if not func else []
             ops.append({"def": name_id(name), "fields": fields, "local": local,
@@ -581,7 +649,7 @@ def unmodel_val(v):
         return {"%": {KEY_NAMES[k]: unmodel_val(x) for k, x in v["dict"]}}
     if "inst" in v:
         k, fs = v["inst"]
-        name = CLASS_NAMES[k] if k < 100 else FUNC_NAMES[k - 100]
+        name = CLASS_NAMES[k] if k < 100 else FUNC_NAMES[k - 100]     # (constrained scalars yield plain ints)
         fn = (lambda i: KEY_NAMES[i]) if k < 100 else (lambda i: {0: "a", 1: "<return>"}[i])
         return {"$": name, "f": {fn(i): unmodel_val(x) for i, x in fs}}
     raise ValueError(v)
@@ -683,6 +751,12 @@ def gen_input(rng, case, t, depth, p_bad=0.08):
         return gen_input(rng, case, t["a"], depth, p_bad)
     if k == "int":
         return rng.choice([5, 5, "7", 12, "x"] if rng.random() < p_bad * 3 else [5, "7", 12, 3])
+    if k == "ref" and t["n"] in (case.get("rules") or {}):
+        # a constrained scalar: values at and around every bound in play
+        v = rng.choice(BOUND_POOL)
+        if rng.random() < p_bad:
+            return "x"
+        return str(v) if rng.random() < 0.25 else v
     if rng.random() < p_bad:
         # a scalar where a structure is expected (containers wrap a lone number leniently: only the string)
         return rng.choice([5, "x"]) if k == "ref" else "x"
@@ -692,7 +766,9 @@ def gen_input(rng, case, t, depth, p_bad=0.08):
         if depth > 0:
             for f, ft in fields:
                 if rng.random() < 0.6:
-                    d[f] = gen_input(rng, case, ft, depth - 1, p_bad)
+                    x = gen_field_input(rng, case, t["n"], f, ft, depth - 1, p_bad)
+                    if x is not OMIT:
+                        d[f] = x
         if not d or rng.random() < 0.15:
             d["zz"] = 1
         return d
@@ -722,6 +798,40 @@ def gen_input(rng, case, t, depth, p_bad=0.08):
     raise ValueError(k)
 
 
+BOUND_POOL = [0, 1, 2, 3, 4, 5, 6, 8, 9, 10, 11, 49, 50, 51, 60]
+
+
+OMIT = object()
+
+
+def gen_field_input(rng, case, owner, fname, t, depth, p_bad):
+    """input for a field.  Inside a union member (p_bad == 0) nothing may fail — a failing member hands
+    its content to the next one, whose conversions are lenient — so there only accepted values are kept."""
+    v = gen_field_input_(rng, case, owner, fname, t, depth, p_bad)
+    if p_bad != 0.0:
+        return v
+    everything = list(case["classes"]) + list(case.get("rules") or {}) + list(case["funcs"])
+    for _ in range(6):
+        try:
+            ref_field(case, everything, owner, fname, strip(t), v)
+            return v
+        except Bad:
+            v = gen_field_input_(rng, case, owner, fname, t, depth, p_bad)
+    return OMIT
+
+
+def gen_field_input_(rng, case, owner, fname, t, depth, p_bad):
+    """with a length constraint the container is filled to the bound -1/0/+1"""
+    con = field_con(case, owner, fname)
+    st = strip(t)
+    if con and con[0] in ("max_length", "min_length") and st["t"] in ("list", "dict") and rng.random() < 0.9:
+        n = max(0, con[1] + rng.choice([-1, 0, 0, 1]))
+        if st["t"] == "list":
+            return [gen_input(rng, case, st["a"], depth, 0.0) for _ in range(n)]
+        return {key: gen_input(rng, case, st["a"], depth, 0.0) for key in ["k", "k2"][:n]}
+    return gen_input(rng, case, t, depth, p_bad)
+
+
 def gen_use(rng, case, tgt, risky=False):
     SHALLOW_UNIONS[0] = risky or case.get("scope") == "function"
     depth = rng.choice([1, 2, 2, 3])
@@ -731,9 +841,58 @@ def gen_use(rng, case, tgt, risky=False):
             inp = gen_input(rng, case, {"t": "ref", "n": tgt}, depth, 0.06)
         return {"use": tgt, "input": inp}
     g = case["funcs"][tgt]
-    inp = {"a": gen_input(rng, case, g["arg"], depth, 0.06)}
+    inp = {"a": gen_field_input(rng, case, tgt, "a", g["arg"], depth, 0.06)}
     inp["<return>"] = gen_input(rng, case, g["ret"], depth, 0.06) if g.get("ret") else 5
     return {"call": tgt, "input": inp}
+
+
+RULE_OWN = {"Q": [("gt", 0), ("ge", 1)], "R": [("le", 50), ("lt", 60)]}
+RANGE_CONS = [("le", 3), ("le", 10), ("ge", 2), ("ge", 5), ("lt", 8), ("gt", 1)]
+
+
+def sub_rules(rng, t, rules):
+    """put a constrained scalar type where an int (often) or a class reference (sometimes) stood"""
+    if not rules:
+        return t
+    k = t["t"]
+    if k == "int":
+        return {"t": "ref", "n": rng.choice(rules), "q": True} if rng.random() < 0.5 else t
+    if k == "ref":
+        return {"t": "ref", "n": rng.choice(rules), "q": True} if rng.random() < 0.12 else t
+    if k in ("list", "dict", "opt"):
+        return {"t": k, "a": sub_rules(rng, t["a"], rules)}
+    if k == "tuple":
+        return {"t": k, "as": [sub_rules(rng, a, rules) for a in t["as"]]}
+    if k == "union":
+        ms = []
+        for a in t["as"]:
+            a = sub_rules(rng, a, rules)
+            if not any(x == a for x in ms):
+                ms.append(a)
+        ms.sort(key=lambda m: (m["t"] != "ref", m.get("n", "")))
+        if len(ms) == 1:
+            return ms[0]
+        return dict(t, **{"as": ms})
+    return t
+
+
+def pick_con(rng, case, st):
+    """a constraint that fits the annotation: ranges on constrained scalars (also through Optional/Union),
+    lengths on containers"""
+    rules = case.get("rules") or {}
+    k = st["t"]
+    scalar = lambda m: m["t"] == "int" or (m["t"] == "ref" and m["n"] in rules)  # noqa: E731
+    if k == "ref" and st["n"] in rules and rng.random() < 0.65:
+        return list(rng.choice(RANGE_CONS))
+    if k in ("opt", "union") and not st.get("op"):
+        ms = [m for m in flat_union(st) if m["t"] != "none"]
+        if ms and all(scalar(m) for m in ms) and any(m["t"] == "ref" for m in ms) and rng.random() < 0.5:
+            return list(rng.choice(RANGE_CONS))
+    if k == "list" and rng.random() < 0.3:
+        return list(rng.choice([("max_length", 1), ("max_length", 2), ("min_length", 1)]))
+    if k == "dict" and rng.random() < 0.3:
+        return list(rng.choice([("max_length", 1), ("min_length", 1)]))
+    return None
 
 
 def gen_case(rng, tier="quick"):
@@ -790,36 +949,54 @@ def gen_case(rng, tier="quick"):
                 fs = [[f, {"t": "int"}] for f, _ in fs][:2]
             classes[n]["fields"] = [[f"f{off + i}", t] for i, (_, t) in enumerate(fs)]
             off += len(fs)
+    # constrained scalar types (`class Q(int, Rule): gt = 0`) take the place of some leaves; they are declared
+    # somewhere among the classes, so a reference to them can be a forward reference as well
+    rules = {}
+    if rng.random() < 0.4:
+        for q in RULE_NAMES[:rng.choice([1, 1, 2])]:
+            rules[q] = list(rng.choice(RULE_OWN[q]))
+        for n in order:
+            classes[n]["fields"] = [[f, sub_rules(rng, t, list(rules))] for f, t in classes[n]["fields"]]
+    order_all = order[:]
+    for q in rules:
+        order_all.insert(rng.randint(0, len(order_all)), q)
     # spellings
     p_direct = rng.choice([0.0, 0.3, 0.5, 0.8])
     SCHEMA_OK[0] = set() if future else {n for n in names if classes[n]["kind"] == "schema"}
-    for pos, n in enumerate(order):
-        earlier = order[:pos]
+    for n in order:
+        earlier = order_all[:order_all.index(n)]
         fs = []
         for f, t in classes[n]["fields"]:
             if rng.random() < 0.2 and t["t"] != "int":
                 fs.append([f, {"t": "whole", "a": all_direct(t)}])
             else:
-                fs.append([f, respell(rng, t, names if future else earlier, p_direct)])
+                fs.append([f, respell(rng, t, order_all if future else earlier, p_direct)])
         classes[n]["fields"] = fs
-    case = {"classes": classes, "funcs": {}, "future": future, "scope": scope}
-    prog = [{"def": n} for n in order]
+    case = {"classes": classes, "funcs": {}, "future": future, "scope": scope, "rules": rules, "cons": {}}
+    prog = [({"rule": n} if n in rules else {"def": n}) for n in order_all]
     # a parsed function somewhere in the program
     if rng.random() < 0.3:
         pos = rng.randint(0, len(prog))
-        earlier = [op["def"] for op in prog[:pos]]
-        targ = gen_type(rng, names, 2)
-        tret = gen_type(rng, [r["n"] for r in refs_of(targ)] or names, 1) if rng.random() < 0.6 else None
+        earlier = [op.get("def") or op.get("rule") for op in prog[:pos]]
+        targ = sub_rules(rng, gen_type(rng, names, 2), list(rules))
+        tret = gen_type(rng, [r["n"] for r in refs_of(targ) if r["n"] in names] or names, 1) if rng.random() < 0.6 else None
 
         def sp(t):
             if t is None:
                 return None
             if rng.random() < 0.25 and t["t"] != "int":
                 return {"t": "whole", "a": all_direct(t)}
-            return respell(rng, t, names if future else earlier, p_direct)
+            return respell(rng, t, order_all if future else earlier, p_direct)
         case["funcs"]["g0"] = {"arg": sp(targ), "ret": sp(tret)}
         prog.insert(pos, {"fn": "g0"})
     case["prog"] = prog
+    # Field(...)/Param(...) constraints on annotations that (may) go through a forward reference
+    owners = [(n, classes[n]["fields"]) for n in order] + [(g, [["a", case["funcs"][g]["arg"]]]) for g in case["funcs"]]
+    for owner, fields in owners:
+        for f, t in fields:
+            con = pick_con(rng, case, strip(t))
+            if con:
+                case["cons"].setdefault(owner, {})[f] = con
     # uses: mostly after everything is defined, in a random first-use order
     targets = names + list(case["funcs"])
     rng.shuffle(targets)
@@ -832,9 +1009,9 @@ def gen_case(rng, tier="quick"):
     # sometimes a use in the middle of the definitions (possibly before a referenced class exists)
     if rng.random() < 0.3:
         pos = rng.randint(1, len(prog))
-        before = [op.get("def") or op.get("fn") for op in prog[:pos]]
-        tgt = rng.choice(before)
-        case["prog"].insert(pos, gen_use(rng, case, tgt, risky=True))
+        before = [x for x in (op.get("def") or op.get("fn") for op in prog[:pos]) if x]
+        if before:
+            case["prog"].insert(pos, gen_use(rng, case, rng.choice(before), risky=True))
     return case
 
 
@@ -870,6 +1047,65 @@ def shapes(maxk=2):
                     for f, t in reversed(fields):
                         case["prog"].append({"use": "A", "input": {f: gen_input(rng, case, t, 1, 0.0)}})
                     out.append(case)
+    return out
+
+
+def con_shapes():
+    """systematic constraint part: one annotation of A naming the constrained scalar type Q in 7 spellings x a
+    Field/Param constraint that fits x Q declared before / after A x 5 modes (+ as a function parameter), used
+    with inputs just inside and just outside the bound (and the bound of Q itself)"""
+    out = []
+    SHALLOW_UNIONS[0] = False
+    Q = lambda q=True: {"t": "ref", "n": "Q", "q": q}  # noqa: E731
+    spell = {
+        "ref": lambda q: Q(q), "whole": lambda q: {"t": "whole", "a": Q(False)},
+        "opt": lambda q: {"t": "opt", "a": Q(q)},
+        "list": lambda q: {"t": "list", "a": Q(q)}, "wlist": lambda q: {"t": "whole", "a": {"t": "list", "a": Q(False)}},
+        "dict": lambda q: {"t": "dict", "a": Q(q)}, "listopt": lambda q: {"t": "list", "a": {"t": "opt", "a": Q(q)}},
+    }
+    ranges = [("le", 3), ("ge", 2), ("lt", 8), ("gt", 1)]
+    lengths = [("max_length", 1), ("min_length", 1), ("max_length", 2)]
+
+    def inputs(t, con):
+        st = strip(t)
+        kind, b = con
+        if kind in ("le", "gt"):
+            vals = [b, b + 1, 0]
+        elif kind in ("ge", "lt"):
+            vals = [b - 1, b, 0]
+        else:
+            ns = [b, b + 1] if kind == "max_length" else [b - 1, b]
+            if st["t"] == "dict":
+                return [{key: 5 for key in ["k", "k2", "zz"][:n]} for n in ns]
+            return [[5] * n for n in ns] + [[0] * ns[0]]
+        return vals + ([None] if st["t"] == "opt" else [])
+
+    for mode in ({}, {"future": True}, {"kind": "dataclass"}, {"local": True}, {"scope": "function"}, {"func": True}):
+        for order in (["A", "Q"], ["Q", "A"]):
+            for sk, mk in spell.items():
+                direct_ok = order[0] == "Q" or mode.get("future")
+                for q in ([True, False] if direct_ok and sk not in ("whole", "wlist") else [True]):
+                    t = mk(q)
+                    cons = ranges if strip(t)["t"] in ("ref", "opt") else lengths
+                    if strip(t)["t"] == "dict":
+                        cons = lengths[:2]
+                    for con in cons:
+                        case = {"classes": {}, "funcs": {}, "future": bool(mode.get("future")),
+                                "scope": mode.get("scope", "module"), "rules": {"Q": ["gt", 0]}, "cons": {}}
+                        if mode.get("func"):
+                            case["funcs"]["g0"] = {"arg": t, "ret": None}
+                            case["cons"]["g0"] = {"a": list(con)}
+                            case["prog"] = [({"rule": "Q"} if n == "Q" else {"fn": "g0"}) for n in order]
+                            for v in inputs(t, con):
+                                case["prog"].append({"call": "g0", "input": {"a": v, "<return>": 5}})
+                        else:
+                            case["classes"]["A"] = {"fields": [["f0", t]], "kind": mode.get("kind", "schema"),
+                                                    "local": bool(mode.get("local"))}
+                            case["cons"]["A"] = {"f0": list(con)}
+                            case["prog"] = [({"rule": "Q"} if n == "Q" else {"def": "A"}) for n in order]
+                            for v in inputs(t, con):
+                                case["prog"].append({"use": "A", "input": {"f0": v}})
+                        out.append(case)
     return out
 
 
@@ -931,7 +1167,8 @@ class C17(Check):
     rule = ("programs of 2-4 mutually referencing data classes (+ parsed functions) x spelling of every reference "
             "(bare name, quoted leaf inside List/Dict/Optional/Union/Tuple, whole-string annotation, future annotations, "
             "function-local classes, inheritance chains of any depth with several bases) x definition order x first-use order "
-            "x type-directed inputs; plus every first-use order of 2-4 level chains / diamonds; plus every one- and "
+            "x Field/Param constraints (le/ge/lt/gt, max/min_length) on annotations that go through a forward reference to "
+            "a constrained scalar type, inputs at and beyond the bounds x type-directed inputs; plus every first-use order of 2-4 level chains / diamonds; plus every one- and "
             "two-annotation combination of 9 spellings of A->B in 5 modes and both orders.  non-trivial = a use whose "
             "class reaches a reference that was unresolved when its declaration was created (lazy path); distinct by "
             "(program, use index)")
@@ -947,6 +1184,7 @@ class C17(Check):
         if tier != "search":
             out += shapes(3 if tier == "thorough" else 2)
             out += chain_shapes()
+            out += con_shapes()
         out += [gen_case(rng, "thorough" if tier == "thorough" else "quick") for _ in range(n)]
         return out
 
@@ -981,7 +1219,9 @@ class C17(Check):
         if "outs" not in io:
             return f"adapter returned no outcomes: {io}"
         if io.get("setup"):
-            return f"HARNESS: generated program does not run: {io['setup']}"
+            # every generated program is valid when its references are written directly
+            return (f"the declarations could not be created ({io['setup']}) although the same declarations "
+                    f"written with direct references are valid")
         us = uses(case)
         if len(us) != len(io["outs"]):
             return f"HARNESS: {len(us)} uses but {len(io['outs'])} outcomes"
@@ -999,7 +1239,7 @@ class C17(Check):
         return None
 
     def classify(self, case, io, why):
-        if why.startswith("HARNESS") or "outs" not in io:
+        if why.startswith("HARNESS") or "outs" not in io or io.get("setup"):
             return None
         # function-local sibling named through a string: never visible to the parser's namespace
         if case.get("scope") == "function":
